@@ -126,7 +126,7 @@ fn run(a: &vhcore::Args) -> i32 {
         &plan,
         "c10",
         env_usize("VH_C10_BATCH", 150),
-        env_usize("VH_C10_BUDGET_S", 660) as u64,
+        env_usize("VH_C10_BUDGET_S", if thorough { 660 } else { 70 }) as u64,
         &mut |c, r, release| {
             outcomes.add(&format!("{:?}", r.outcome));
             if let Some(f) = r.judged.flags {
